@@ -139,13 +139,13 @@ pub fn canon_reply(name: &[u8], v: V) -> V {
         b"SSCAN" => match v {
             V::Array(mut l) if l.len() == 2 => { if let V::Array(m) = &mut l[1] { if m.iter().all(|x| matches!(x, V::Bulk(_))) { sort_bulks(m); } } V::Array(l) }
             x => x },
-        _ => v,
+        _ => crate::c15::canon_streams(name, v),
     }
 }
 pub fn req_name(req: &V) -> Vec<u8> {
     match req { V::Array(l) => match l.first() { Some(V::Bulk(b)) => b.to_ascii_uppercase(), _ => vec![] }, _ => vec![] }
 }
-const RANDOM_CMDS: &[&[u8]] = &[b"RANDOMKEY", b"SPOP", b"SRANDMEMBER"];
+const RANDOM_CMDS: &[&[u8]] = &[b"RANDOMKEY", b"SPOP", b"SRANDMEMBER", b"XADD"];
 
 pub struct Runner { pub srv: Srv, pub conns: HashMap<i128, Client>, pub t0: Instant, pub logical: i128, pub drift_bad: bool, pub queues: HashMap<i128, Vec<Vec<u8>>>, pub password: Option<String>, pub ctl_authed: bool }
 
